@@ -8,7 +8,8 @@ import (
 
 // ModSpec mirrors coq/Engine/Lifetime.v `mspec`, split by import kind.
 // Record index space of a module: impf imports, then imps imports, then own constant functions.
-// Holder index space: imported tables, own exported tables, own private tables, then funcref globals.
+// Holder index space: imported tables, own exported tables, own private tables, then funcref globals: own private
+// (mutable) ones, own exported ones (ExpG), imported ones (ImpG).
 type ModSpec struct {
 	ImpF  [][2]int `json:"impf"`  // (module, record index in that module) of an imported ()->i32 function
 	ImpS  [][2]int `json:"imps"`  // (module, holder index in that module): imported store function st<t>
@@ -34,6 +35,17 @@ type ModSpec struct {
 	GI    int      `json:"gi,omitempty"`
 	ImpGI []int    `json:"impgi,omitempty"`
 	ImpA  [][2]int `json:"impa,omitempty"`
+	// Exported / imported FUNCREF globals (coq/Engine/Lifetime.v gspec / sp_impg / sp_gelems).
+	// ExpG: (mutable 0/1, init) exported as "fg<e>"; init -1 = ref.null, j >= 0 = ref.func of own function j,
+	// -2-q = global.get of the imported IMMUTABLE global ImpG[q].
+	// ImpG: (module, index into that module's ExpG), imported with the exporter's mutability.
+	// GElems: (holder, slot, q): an element item `global.get ImpG[q]` into a table, or (holder = a private global, slot 0)
+	// the initialiser `global.get ImpG[q]` of that global; ImpG[q] must be immutable.
+	// GOnly: generator hint - the module imports nothing but funcref globals (and env.hook).
+	ExpG   [][2]int `json:"expg,omitempty"`
+	ImpG   [][2]int `json:"impg,omitempty"`
+	GElems [][3]int `json:"gelems,omitempty"`
+	GOnly  bool     `json:"gonly,omitempty"`
 }
 
 const MemMax = 4
@@ -47,7 +59,64 @@ func (m *ModSpec) hasGlob() bool { return m.GI != 0 || len(m.ImpGI) > 0 }
 func (m *ModSpec) nImpRec() int { return len(m.ImpF) + len(m.ImpS) + len(m.ImpA) }
 func (m *ModSpec) nRec() int    { return m.nImpRec() + m.NFun }
 func (m *ModSpec) nTab() int    { return len(m.ImpT) + m.NExp + m.NPriv }
-func (m *ModSpec) nHold() int   { return m.nTab() + m.NGlob }
+func (m *ModSpec) nHold() int   { return m.nTab() + m.NGlob + len(m.ExpG) + len(m.ImpG) }
+
+// nOwnMut: tables and private globals (the holders an active element segment / a private initialiser may target)
+func (m *ModSpec) nOwnMut() int { return m.nTab() + m.NGlob }
+
+// gwasm: wasm global index of the global holder t (t >= nTab): imported funcref globals come first, then the imported
+// i32 global, then the private and the exported funcref globals
+func (m *ModSpec) gwasm(t int) uint32 {
+	g := t - m.nTab()
+	base := len(m.ImpG) + len(m.ImpGI)
+	switch {
+	case g < m.NGlob:
+		return uint32(base + g)
+	case g < m.NGlob+len(m.ExpG):
+		return uint32(base + g)
+	default:
+		return uint32(g - m.NGlob - len(m.ExpG))
+	}
+}
+
+// holderMut: may code of module self write holder t? (tables, private globals, mutable exported / imported globals)
+func holderMut(mods []ModSpec, self, t int) bool {
+	m := &mods[self]
+	g := t - m.nTab()
+	switch {
+	case g < m.NGlob:
+		return true
+	case g < m.NGlob+len(m.ExpG):
+		return m.ExpG[g-m.NGlob][0] != 0
+	default:
+		p := m.ImpG[g-m.NGlob-len(m.ExpG)]
+		return mods[p[0]].ExpG[p[1]][0] != 0
+	}
+}
+
+func mutHolders(mods []ModSpec, self int) []int {
+	var l []int
+	for t := 0; t < mods[self].nHold(); t++ {
+		if holderMut(mods, self, t) {
+			l = append(l, t)
+		}
+	}
+	return l
+}
+
+func (m *ModSpec) impGHolder(q int) int { return m.nTab() + m.NGlob + len(m.ExpG) + q }
+func (m *ModSpec) expGHolder(e int) int { return m.nTab() + m.NGlob + e }
+
+// immutable imported funcref globals (indices into ImpG)
+func immImpG(mods []ModSpec, self int) []int {
+	var l []int
+	for q, p := range mods[self].ImpG {
+		if mods[p[0]].ExpG[p[1]][0] == 0 {
+			l = append(l, q)
+		}
+	}
+	return l
+}
 
 // record index -> wasm function index (import 0 is env.hook)
 func widx(r int) uint32 { return uint32(r + 1) }
@@ -96,6 +165,10 @@ func Build(self int, mods []ModSpec) []byte {
 	if len(m.ImpM) > 0 {
 		w.Imports = append(w.Imports, c.Cat(c.Name(fmt.Sprintf("m%d", m.ImpM[0])), c.Name("mem"), c.B(2), c.MemLimits(1, &mx)))
 	}
+	for _, p := range m.ImpG {
+		w.Imports = append(w.Imports, c.Cat(c.Name(fmt.Sprintf("m%d", p[0])), c.Name(fmt.Sprintf("fg%d", p[1])),
+			c.B(3, c.FuncRef, byte(mods[p[0]].ExpG[p[1]][0]))))
+	}
 	if len(m.ImpGI) > 0 {
 		w.Imports = append(w.Imports, c.Cat(c.Name(fmt.Sprintf("m%d", m.ImpGI[0])), c.Name("gi"), c.B(3, c.I32, 1)))
 	}
@@ -105,15 +178,17 @@ func Build(self int, mods []ModSpec) []byte {
 	if m.hasMem() {
 		w.Exports = append(w.Exports, c.Export("mem", 2, 0))
 	}
-	// global index space: an imported i32 global comes first
-	gbase := uint32(len(m.ImpGI))
+	// global index space: the imported funcref globals, the imported i32 global, then the own ones: private funcref,
+	// exported funcref, one i32 per own function, the shared i32
+	gbase := uint32(len(m.ImpG) + len(m.ImpGI))
+	nfg := m.NGlob + len(m.ExpG)
 	nit := len(m.ImpT)
 	ntab := m.nTab()
 	scratch := uint32(ntab)
 	for i := 0; i < m.NExp+m.NPriv; i++ {
 		w.Tables = append(w.Tables, c.Cat(c.B(c.FuncRef, 0), c.U32(uint32(m.Size))))
 	}
-	if m.NGlob > 0 {
+	if m.nHold() > ntab {
 		w.Tables = append(w.Tables, c.Cat(c.B(c.FuncRef, 0), c.U32(1)))
 	}
 	ginit := make([][]byte, m.NGlob)
@@ -129,17 +204,40 @@ func Build(self int, mods []ModSpec) []byte {
 			w.Elems = append(w.Elems, c.Cat(c.B(2), c.U32(uint32(e[0])), c.I32Const(int32(e[1])), c.B(0x0b), c.B(0), c.Vec(c.U32(widx(e[2])))))
 		}
 	}
+	// element items / private initialisers `global.get g` of imported immutable globals (after the ref.func ones: the
+	// model applies them in this order)
+	for _, e := range m.GElems {
+		item := c.Cat(c.GlobalGet(uint32(e[2])), c.B(0x0b))
+		if e[0] >= ntab {
+			ginit[e[0]-ntab] = c.GlobalGet(uint32(e[2]))
+		} else if e[0] == 0 {
+			w.Elems = append(w.Elems, c.Cat(c.B(4), c.I32Const(int32(e[1])), c.B(0x0b), c.Vec(item)))
+		} else {
+			w.Elems = append(w.Elems, c.Cat(c.B(6), c.U32(uint32(e[0])), c.I32Const(int32(e[1])), c.B(0x0b), c.B(c.FuncRef), c.Vec(item)))
+		}
+	}
 	for g := 0; g < m.NGlob; g++ {
 		w.Globals = append(w.Globals, c.Cat(c.B(c.FuncRef, 1), ginit[g], c.B(0x0b)))
+	}
+	for e, x := range m.ExpG {
+		init := refNull()
+		switch {
+		case x[1] >= 0:
+			init = refFunc(widx(m.nImpRec() + x[1]))
+		case x[1] <= -2:
+			init = c.GlobalGet(uint32(-2 - x[1]))
+		}
+		w.Globals = append(w.Globals, c.Cat(c.B(c.FuncRef, byte(x[0])), init, c.B(0x0b)))
+		w.Exports = append(w.Exports, c.Export(fmt.Sprintf("fg%d", e), 3, gbase+uint32(m.NGlob+e)))
 	}
 	// the value an own function returns lives in a mutable i32 global of its instance, so that the function
 	// reads its module context (a call with a dangling context returns something else or faults)
 	for j := 0; j < m.NFun; j++ {
 		w.Globals = append(w.Globals, c.Cat(c.B(c.I32, 1), c.I32Const(constOf(self, j)), c.B(0x0b)))
 	}
-	giIdx := uint32(0)
+	giIdx := uint32(len(m.ImpG)) // the imported i32 global, if any
 	if m.GI != 0 {
-		giIdx = gbase + uint32(m.NGlob+m.NFun)
+		giIdx = gbase + uint32(nfg+m.NFun)
 		w.Globals = append(w.Globals, c.Cat(c.B(c.I32, 1), c.I32Const(0), c.B(0x0b)))
 	}
 	if m.hasGlob() {
@@ -175,7 +273,7 @@ func Build(self int, mods []ModSpec) []byte {
 	}
 	// own constant functions first: record index nImpRec()+j  <->  wasm index 1+nImpRec()+j
 	for j := 0; j < m.NFun; j++ {
-		add(fmt.Sprintf("f%d", j), tConst, c.GlobalGet(gbase+uint32(m.NGlob+j)))
+		add(fmt.Sprintf("f%d", j), tConst, c.GlobalGet(gbase+uint32(nfg+j)))
 	}
 	isRefable := func(r int) bool { return r < len(m.ImpF) || r >= m.nImpRec() }
 	// push the reference held by holder t (slot = local 0 for tables)
@@ -183,14 +281,14 @@ func Build(self int, mods []ModSpec) []byte {
 		if t < ntab {
 			return c.Cat(c.LocalGet(slotLocal), tableGet(uint32(t)))
 		}
-		return c.GlobalGet(gbase + uint32(t-ntab))
+		return c.GlobalGet(m.gwasm(t))
 	}
 	// call_indirect through holder t, slot in local 0
 	ind := func(t int) []byte {
 		if t < ntab {
 			return c.Cat(c.LocalGet(0), callInd(uint32(t)))
 		}
-		return c.Cat(c.I32Const(0), c.GlobalGet(gbase+uint32(t-ntab)), tableSet(scratch), c.I32Const(0), callInd(scratch))
+		return c.Cat(c.I32Const(0), c.GlobalGet(m.gwasm(t)), tableSet(scratch), c.I32Const(0), callInd(scratch))
 	}
 	for r := 0; r < len(m.ImpF); r++ {
 		add(fmt.Sprintf("ci%d", r), tConst, c.Call(widx(r)))
@@ -198,6 +296,25 @@ func Build(self int, mods []ModSpec) []byte {
 	for t := 0; t < m.nHold(); t++ {
 		add(fmt.Sprintf("ind%d", t), tI_I, ind(t))
 		add(fmt.Sprintf("hki%d", t), tI_I, c.Call(0), ind(t))
+		for d := 0; d < m.nHold(); d++ {
+			if !holderMut(mods, self, d) {
+				continue
+			}
+			if d < ntab {
+				add(fmt.Sprintf("cp%d_%d", t, d), tII, c.LocalGet(1), get(t, 0), tableSet(uint32(d)))
+			} else {
+				add(fmt.Sprintf("cp%d_%d", t, d), tII, get(t, 0), c.GlobalSet(m.gwasm(d)))
+			}
+		}
+		if t >= ntab {
+			// hand the value of the global on as a parameter of an imported store function
+			for q := range m.ImpS {
+				add(fmt.Sprintf("gp%d_%d", t, q), tI, c.LocalGet(0), c.GlobalGet(m.gwasm(t)), c.Call(widx(len(m.ImpF)+q)))
+			}
+		}
+		if !holderMut(mods, self, t) {
+			continue // an immutable global: no instruction writes it
+		}
 		for r := 0; r < m.nRec(); r++ {
 			if !isRefable(r) {
 				continue
@@ -205,14 +322,7 @@ func Build(self int, mods []ModSpec) []byte {
 			if t < ntab {
 				add(fmt.Sprintf("set%d_%d", t, r), tI, c.LocalGet(0), refFunc(widx(r)), tableSet(uint32(t)))
 			} else {
-				add(fmt.Sprintf("set%d_%d", t, r), tI, refFunc(widx(r)), c.GlobalSet(gbase+uint32(t-ntab)))
-			}
-		}
-		for d := 0; d < m.nHold(); d++ {
-			if d < ntab {
-				add(fmt.Sprintf("cp%d_%d", t, d), tII, c.LocalGet(1), get(t, 0), tableSet(uint32(d)))
-			} else {
-				add(fmt.Sprintf("cp%d_%d", t, d), tII, get(t, 0), c.GlobalSet(gbase+uint32(d-ntab)))
+				add(fmt.Sprintf("set%d_%d", t, r), tI, refFunc(widx(r)), c.GlobalSet(m.gwasm(t)))
 			}
 		}
 		if t < ntab {
@@ -229,8 +339,8 @@ func Build(self int, mods []ModSpec) []byte {
 			add(fmt.Sprintf("clr%d", t), tI, c.LocalGet(0), refNull(), tableSet(uint32(t)))
 			add(fmt.Sprintf("st%d", t), tStore, c.LocalGet(0), c.LocalGet(1), tableSet(uint32(t)))
 		} else {
-			add(fmt.Sprintf("clr%d", t), tI, refNull(), c.GlobalSet(gbase+uint32(t-ntab)))
-			add(fmt.Sprintf("st%d", t), tStore, c.LocalGet(1), c.GlobalSet(gbase+uint32(t-ntab)))
+			add(fmt.Sprintf("clr%d", t), tI, refNull(), c.GlobalSet(m.gwasm(t)))
+			add(fmt.Sprintf("st%d", t), tStore, c.LocalGet(1), c.GlobalSet(m.gwasm(t)))
 		}
 	}
 	for r := 0; r < m.nRec(); r++ {
